@@ -57,7 +57,7 @@ SESSION_RULE = (" Session level (half of the workers): two real Clients (contact
                 "connection reset after k more bytes in one direction + send + restart, one direction silently swallowing bytes after k more bytes + send + restart, Close on either side + restart}; one transfer in flight at a time.")
 
 C12_RULE = ("two harnesses. MTCP: one evaluation = a seeded sequence of 1..20 sends (payload 1..2000 bytes) interleaved with advances across the 5 s keep-alive ticks on one simulated TCP-like "
-            "stream with seeded chunk sizes (1..4096 bytes per read) and a cut (reset) at a seeded byte offset in 45% of the runs or, in 25%, a clean close by the server between two operations (like TCP, the first write after it still succeeds locally, later ones fail). BBC: one evaluation = one bundle x modem MTU (3..255) x transmission id: "
+            "stream with seeded chunk sizes (1..4096 bytes per read) and a cut (reset) at a seeded byte offset in 45% of the runs or, in 25%, a clean close by the server between two operations (like TCP, the first write after it still succeeds locally, later ones fail); in 30% a slow consumer above the server while a burst of 2..12 bundles arrives back to back (what piles up must come out in wire order; the window is the harness', the order of goroutines inside it the Go scheduler's, so such a violation is confirmed by repeated fresh-process runs). BBC: one evaluation = one bundle x modem MTU (3..255) x transmission id: "
             "the clean fragment train is judged, then EVERY single drop, duplication and adjacent swap of the train is applied in turn (enumerated), then 2..6 seeded multi-fault patterns (<16 losses "
             "in a row) and two interleaved incoming transmissions. Non-trivial = at least one send (MTCP) / a train of >= 2 fragments (BBC); distinct = distinct canonical log.")
 
@@ -122,7 +122,7 @@ PROPS = {
             "assumptions": COMMON_ASSUME + ["sync.Map order inside RestAgent is not owned; the oracle demands delivery to all registered clients, which does not depend on it", "REST client uuids (crypto/rand) are canonicalised to client indices before they reach the scheduler or the log"],
             "required_probes": ["rmw_interleave", "local_bundle_without_recipient", "delivered_report_seen", "ws_client_received", "unregister_during_fanout", "register_during_fanout"]},
     "C12": {"parts": [
-                {"pkg": "pkg/cla/mtcp", "binary": "mtcp.test", "harness": "mtcp", "variants": [""]},
+                {"pkg": "pkg/cla/mtcp", "binary": "mtcp.test", "harness": "mtcp", "variants": [""], "burst": True},
                 {"pkg": "pkg/cla/bbc", "binary": "bbc.test", "harness": "bbc", "variants": [""]}],
             "focus": "C12", "budget": {"quick": 45, "thorough": 900}, "level": "exploration", "rule": C12_RULE,
             "real": ["mtcp.MTCPClient (Send, keep-alive handler, failure reporting)", "mtcp.MTCPServer.handleSender", "bbc.Connector (Send, handlerRead, handlerWrite, handleIncomingFragment)",
